@@ -83,6 +83,17 @@ impl Script for C15Script {
                 let token = model::murmur3_token(pk);
                 if !self.first.contains_key(&m) {
                     self.first.insert(m, (rq.node, rq.shard, token, lookup(&self.known, token).cloned()));
+                    // Sometimes the node has just forgotten the statement when a request that
+                    // would be answered with tablet feedback arrives: the first answer is
+                    // UNPREPARED, and the feedback rides on the answer to the repeated EXECUTE.
+                    if let Request::Execute { id, .. } = req {
+                        let here = (rq.node, rq.shard.unwrap_or(0));
+                        let feedback_due = lookup(&self.layout, token).map(|t| !t.replicas.contains(&here)).unwrap_or(false);
+                        if feedback_due && tape::chance("c15:evict_before_feedback", 1, 5) && _w.cluster.nodes[rq.node].prepared.remove(id).is_some() {
+                            _w.fault(Fault::Evict);
+                            _w.probe("feedback_after_repreparation");
+                        }
+                    }
                 }
             }
         }
